@@ -5,16 +5,26 @@ package main
 // C13 — compilation and code generation are deterministic functions of the
 // sources.
 //
-// Every generated bundle (program generator of gen_prog.go plus an "extras"
-// file: several imports, directives and functions for the ES6 import block,
-// messages with colliding placeholder base names, map literals, globals; and
+// Every generated bundle (program generator of gen_prog.go plus library files,
+// an "extras" file -- several imports, directives and functions for the ES6
+// import block, messages with colliding placeholder base names, map literals,
+// globals of every shape (maps, lists, nested) added through AddGlobalsMap or a
+// globals file, templates with header params with and without a soydoc that
+// pass params on with data="all" -- zero to two more files of messages whose
+// print placeholders and plural selectors share one pool of expressions; and
 // optionally one to three independent errors spread over the files, globals
 // maps that redefine names) is
 //   - compiled and emitted c13Reps times in this process (Go randomises map
 //     iteration per loop, so repetitions explore different internal orders),
-//   - compiled and emitted once in each of two fresh processes,
-//   - under every permutation of the file insertion order (<= 4 files:
-//     exhaustive),
+//     alternating between a NEW bundle and calling Compile AGAIN on the same
+//     *soy.Bundle object (also after a failed Compile); one new bundle is first
+//     compiled with CompileToTofu and rendered through that Tofu,
+//   - compiled once under every other permutation of the file insertion order
+//     (<= 4 files: exhaustive) and compared with the first order,
+//   - compiled in fresh processes: the first and one other order in two worker
+//     processes per batch (the second runs the batch in reverse), and for
+//     bundles with messages in several files each such file in front, every
+//     order in a process of its own (one compilation per process),
 //   - for the ES5 and ES6 formatters, with and without a message bundle.
 // Projection (the observables of the statement): Bundle.Compile's error text;
 // for accepted bundles the exact bytes of every file's JavaScript (4
@@ -39,6 +49,7 @@ import (
 	"fmt"
 	"os"
 	"os/exec"
+	"runtime/debug"
 	"sort"
 	"strings"
 	"time"
@@ -58,7 +69,8 @@ func init() {
 	workers["c13"] = c13Worker
 }
 
-const c13Reps = 20
+const c13Reps = 12
+const c13Bundles = 500
 
 var c13ES6 = soyjs.Options{Formatter: soyjs.ES6Formatter{}}
 
@@ -72,8 +84,11 @@ type c13Global struct {
 type c13Case struct {
 	Files   []srcFile     `json:"files"`
 	Globals [][]c13Global `json:"globals"` // one Go map per AddGlobalsMap call
-	Seed    int64         `json:"data_seed"`
-	Errors  []string      `json:"injected_errors,omitempty"`
+	// GlobalsFile[i]: group i is written to a globals file and added with
+	// AddGlobalsFile (otherwise: ParseGlobals + AddGlobalsMap)
+	GlobalsFile []bool   `json:"globals_file,omitempty"`
+	Seed        int64    `json:"data_seed"`
+	Errors      []string `json:"injected_errors,omitempty"`
 }
 
 // ---------- a tiny in-memory message bundle ----------
@@ -158,6 +173,33 @@ type c13Obs struct {
 	Msgs    map[string]string `json:"msgs,omitempty"`    // "<file>#<k>" -> id names PlaceholderString
 	Renders map[string]string `json:"renders,omitempty"` // "<template>|msgs" -> output (+ " !error" when Render failed)
 	Lookup  map[string]string `json:"lookup,omitempty"`  // template name -> file:pos of the template Registry.Template returns
+
+	// Lite: JavaScript for two of the four configurations only (es5 with the
+	// message bundle, es6 without): the observations of the file orders other
+	// than the first
+	Lite bool `json:"lite,omitempty"`
+
+	reg  *template.Registry // of this compilation (in-process observations only)
+	msgs *c13Bundle         // the message bundle built from its messages
+}
+
+func c13LiteKey(k string) bool {
+	return strings.HasSuffix(k, "|es5|msgs") || strings.HasSuffix(k, "|es6|nomsgs")
+}
+
+// lite is the observation cut down to what a Lite observation has.
+func (o *c13Obs) lite() *c13Obs {
+	if o.Lite || o.JS == nil {
+		return o
+	}
+	c := *o
+	c.Lite, c.JS = true, map[string]string{}
+	for k, v := range o.JS {
+		if c13LiteKey(k) {
+			c.JS[k] = v
+		}
+	}
+	return &c
 }
 
 func (o *c13Obs) digest() string {
@@ -284,15 +326,29 @@ func c13GlobalsMap(gs []c13Global) (data.Map, error) {
 	return soy.ParseGlobals(strings.NewReader(sb.String()))
 }
 
-// c13Compile adds the globals maps and the files in the order perm and compiles.
-func c13Compile(c *c13Case, perm []int) (reg *template.Registry, err error) {
+// c13Build makes the bundle: the globals groups (each through AddGlobalsMap or
+// through a globals file), then the files in the order perm.
+func c13Build(c *c13Case, perm []int) (b *soy.Bundle, err error) {
 	defer func() {
 		if r := recover(); r != nil {
-			reg, err = nil, fmt.Errorf("PANIC: %v", r)
+			b, err = nil, fmt.Errorf("PANIC: %v", r)
 		}
 	}()
-	b := soy.NewBundle()
-	for _, gs := range c.Globals {
+	b = soy.NewBundle()
+	for gi, gs := range c.Globals {
+		if gi < len(c.GlobalsFile) && c.GlobalsFile[gi] {
+			f, ferr := os.CreateTemp("", "c13globals")
+			if ferr != nil {
+				return nil, fmt.Errorf("harness: %v", ferr)
+			}
+			for _, g := range gs {
+				f.WriteString(g.Name + " = " + g.Lit + "\n")
+			}
+			f.Close()
+			b.AddGlobalsFile(f.Name())
+			os.Remove(f.Name())
+			continue
+		}
 		m, gerr := c13GlobalsMap(gs)
 		if gerr != nil {
 			return nil, fmt.Errorf("ParseGlobals: %v", gerr)
@@ -302,7 +358,26 @@ func c13Compile(c *c13Case, perm []int) (reg *template.Registry, err error) {
 	for _, i := range perm {
 		b.AddTemplateString(c.Files[i].Name, c.Files[i].Text)
 	}
+	return b, nil
+}
+
+// c13CompileBundle calls Compile on a bundle (which may have been compiled before).
+func c13CompileBundle(b *soy.Bundle) (reg *template.Registry, err error) {
+	defer func() {
+		if r := recover(); r != nil {
+			reg, err = nil, fmt.Errorf("PANIC: %v", r)
+		}
+	}()
 	return b.Compile()
+}
+
+// c13Compile adds the globals and the files in the order perm to a new bundle and compiles it.
+func c13Compile(c *c13Case, perm []int) (*template.Registry, error) {
+	b, err := c13Build(c, perm)
+	if err != nil {
+		return nil, err
+	}
+	return c13CompileBundle(b)
 }
 
 func c13WriteJS(f *ast.SoyFileNode, o soyjs.Options) (out string) {
@@ -335,9 +410,20 @@ func c13Render(tofu *soyhtml.Tofu, name string, d data.Map, msgs soymsg.Bundle) 
 	return buf.String()
 }
 
-func c13Observe(c *c13Case, perm []int) (*c13Obs, *template.Registry) {
-	reg, err := c13Compile(c, perm)
-	o := &c13Obs{}
+// c13Observe compiles a NEW bundle and observes the result.
+func c13Observe(c *c13Case, perm []int, lite bool) (*c13Obs, *template.Registry) {
+	b, err := c13Build(c, perm)
+	if err != nil {
+		return &c13Obs{Err: err.Error(), Lite: lite}, nil
+	}
+	return c13ObserveBundle(c, b, lite)
+}
+
+// c13ObserveBundle calls Compile on the given bundle object (new, or compiled
+// before -- successfully or not) and observes the result.
+func c13ObserveBundle(c *c13Case, b *soy.Bundle, lite bool) (*c13Obs, *template.Registry) {
+	reg, err := c13CompileBundle(b)
+	o := &c13Obs{Lite: lite}
 	if err != nil {
 		o.Err = err.Error()
 		if o.Err == "" {
@@ -383,8 +469,12 @@ func c13Observe(c *c13Case, perm []int) (*c13Obs, *template.Registry) {
 			tag string
 			f   soyjs.JSFormatter
 		}{{"es5", soyjs.ES5Formatter{}}, {"es6", soyjs.ES6Formatter{}}} {
-			o.JS[f.Name+"|"+fm.tag+"|nomsgs"] = c13WriteJS(f, soyjs.Options{Formatter: fm.f})
-			o.JS[f.Name+"|"+fm.tag+"|msgs"] = c13WriteJS(f, soyjs.Options{Formatter: fm.f, Messages: bundle})
+			if k := f.Name + "|" + fm.tag + "|nomsgs"; !lite || c13LiteKey(k) {
+				o.JS[k] = c13WriteJS(f, soyjs.Options{Formatter: fm.f})
+			}
+			if k := f.Name + "|" + fm.tag + "|msgs"; !lite || c13LiteKey(k) {
+				o.JS[k] = c13WriteJS(f, soyjs.Options{Formatter: fm.f, Messages: bundle})
+			}
 		}
 	}
 	// template lookup and renders
@@ -408,7 +498,43 @@ func c13Observe(c *c13Case, perm []int) (*c13Obs, *template.Registry) {
 		o.Renders[name+"|nomsgs"] = c13Render(tofu, name, d, nil)
 		o.Renders[name+"|msgs"] = c13Render(tofu, name, d, bundle)
 	}
+	o.reg, o.msgs = reg, bundle
 	return o, reg
+}
+
+// c13TofuRenders: CompileToTofu on the given bundle object; for an accepted
+// bundle every template of the reference compilation is rendered through the
+// Tofu (same data, with and without the reference's message bundle).
+func c13TofuRenders(c *c13Case, b *soy.Bundle, ref *c13Obs) (errText string, renders map[string]string) {
+	tofu, err := func() (t *soyhtml.Tofu, err error) {
+		defer func() {
+			if r := recover(); r != nil {
+				t, err = nil, fmt.Errorf("PANIC: %v", r)
+			}
+		}()
+		return b.CompileToTofu()
+	}()
+	if err != nil {
+		if err.Error() == "" {
+			return "(empty error text)", nil
+		}
+		return err.Error(), nil
+	}
+	renders = map[string]string{}
+	if ref.reg == nil {
+		return "", renders
+	}
+	names := map[string]bool{}
+	for _, t := range ref.reg.Templates {
+		names[t.Node.Name] = true
+	}
+	for name := range names {
+		t, _ := ref.reg.Template(name)
+		d := c13Data(c.Seed, t)
+		renders[name+"|nomsgs"] = c13Render(tofu, name, d, nil)
+		renders[name+"|msgs"] = c13Render(tofu, name, d, ref.msgs)
+	}
+	return "", renders
 }
 
 // ---------- fresh processes ----------
@@ -416,6 +542,7 @@ func c13Observe(c *c13Case, perm []int) (*c13Obs, *template.Registry) {
 type c13Job struct {
 	Case c13Case `json:"case"`
 	Perm []int   `json:"perm"`
+	Lite bool    `json:"lite,omitempty"`
 }
 
 type c13JobResult struct {
@@ -438,7 +565,7 @@ func c13Worker(args []string) {
 	res := make([]c13JobResult, len(jobs))
 	for i := range jobs {
 		fmt.Printf("S %d\n", i)
-		o, _ := c13Observe(&jobs[i].Case, jobs[i].Perm)
+		o, _ := c13Observe(&jobs[i].Case, jobs[i].Perm, jobs[i].Lite)
 		res[i] = c13JobResult{Digest: o.digest(), Obs: c13Wire(*o, hx.H)}
 		fmt.Printf("D %d %s\n", i, res[i].Digest)
 	}
@@ -461,7 +588,7 @@ func c13Wire(o c13Obs, f func(string) string) c13Obs {
 		}
 		return r
 	}
-	return c13Obs{Err: f(o.Err), JS: conv(o.JS), Msgs: conv(o.Msgs), Renders: conv(o.Renders), Lookup: conv(o.Lookup)}
+	return c13Obs{Err: f(o.Err), JS: conv(o.JS), Msgs: conv(o.Msgs), Renders: conv(o.Renders), Lookup: conv(o.Lookup), Lite: o.Lite}
 }
 
 func c13RunWorker(e *env, jobs []c13Job, tag string) ([]c13JobResult, error) {
@@ -522,7 +649,7 @@ func c13Perms(n int) [][]int {
 
 // c13Orders: every permutation for <= 4 files; otherwise identity, reverse, all
 // rotations and some random shuffles.
-func c13Orders(r *hx.Rand, n int) [][]int {
+func c13Orders(r *hx.Rand, n int, shuffles int) [][]int {
 	if n <= 4 {
 		return c13Perms(n)
 	}
@@ -539,7 +666,7 @@ func c13Orders(r *hx.Rand, n int) [][]int {
 	for f := 1; f < n; f++ {
 		res = append(res, c13Front(n, f))
 	}
-	for k := 0; k < 12; k++ {
+	for k := 0; k < shuffles; k++ {
 		p := append([]int{}, id...)
 		for i := n - 1; i > 0; i-- {
 			j := r.Intn(i + 1)
@@ -585,22 +712,58 @@ type c13Replay struct {
 // c13CheckCase runs the repetitions and the file orders of one case in this
 // process; returns the observation of the identity order.  reps is the number
 // of in-process repetitions of the identity order (other orders get
-// max(2, reps/10)).
-func c13CheckCase(e *env, c *c13Case, reps int, orders [][]int) (first *c13Obs, reg *template.Registry, failed bool) {
+// max(1, reps/10): one observation each in the quick tier, where every
+// observation of another order is compared with the first order's).
+func c13CheckCase(e *env, c *c13Case, reps int, orders [][]int) (first *c13Obs, reg *template.Registry, byOrder map[string]*c13Obs, failed bool) {
 	n := len(c.Files)
 	id := c13Front(n, 0)
-	byOrder := map[string]*c13Obs{}
+	byOrder = map[string]*c13Obs{}
 	for oi, p := range orders {
 		k := reps
 		if oi > 0 && c13PermKey(p) != c13PermKey(id) {
 			k = reps / 10
-			if k < 2 {
-				k = 2
+			if k < 1 {
+				k = 1
 			}
 		}
+		// Repetition 0 compiles a new bundle.  After that the repetitions alternate
+		// between calling Compile AGAIN on the bundle object of the repetition
+		// before (odd i) and a new bundle (even i); the new bundle of repetition 2 is
+		// first compiled with CompileToTofu and rendered through that Tofu.
 		var o0 *c13Obs
+		var bnd *soy.Bundle
+		lite := c13PermKey(p) != c13PermKey(id)
 		for i := 0; i < k; i++ {
-			o, r := c13Observe(c, p)
+			how := "two compilations of the same sources (new bundle each, same file order, same process)"
+			if i%2 == 1 && bnd != nil {
+				how = "calling Compile again on the same *soy.Bundle (same process)"
+				e.res.Histogram["same-bundle-recompiled"]++
+			} else {
+				var berr error
+				if bnd, berr = c13Build(c, p); berr != nil {
+					bnd = nil
+				}
+				if i == 2 && bnd != nil {
+					e.res.Histogram["compile-to-tofu-first"]++
+					how = "calling Compile on a *soy.Bundle after CompileToTofu (same process)"
+					terr, renders := c13TofuRenders(c, bnd, o0)
+					to := &c13Obs{Err: terr, Renders: renders}
+					ref := &c13Obs{Err: o0.Err, Renders: o0.Renders}
+					if to.digest() != ref.digest() {
+						what, va, vb := c13Diff(ref, to)
+						e.res.Fail(hx.Violation{Kind: "oracle", What: "CompileToTofu on a new bundle of the same sources (same file order, same process) differs from Compile in: " + what,
+							Case: c13Replay{Case: *c, Order: p}, Expected: hx.Q(va), Observed: hx.Q(vb)}, "")
+						return first, reg, byOrder, true
+					}
+				}
+			}
+			var o *c13Obs
+			var r *template.Registry
+			if bnd != nil {
+				o, r = c13ObserveBundle(c, bnd, lite)
+			} else {
+				o, r = c13Observe(c, p, lite) // the bundle could not be built: the same error again
+			}
 			if o0 == nil {
 				o0 = o
 				if c13PermKey(p) == c13PermKey(id) {
@@ -610,15 +773,25 @@ func c13CheckCase(e *env, c *c13Case, reps int, orders [][]int) (first *c13Obs, 
 			}
 			if o.digest() != o0.digest() {
 				what, va, vb := c13Diff(o0, o)
-				e.res.Fail(hx.Violation{Kind: "oracle", What: "two compilations of the same bundle (same file order, same process) differ in: " + what,
+				if i%2 == 1 || i == 2 {
+					// is it the re-use of the bundle object, or do new bundles differ as well?
+					for j := 0; j < 8; j++ {
+						if o2, _ := c13Observe(c, p, lite); o2.digest() != o0.digest() {
+							how = "two compilations of the same sources (new bundle each, same file order, same process)"
+							what, va, vb = c13Diff(o0, o2)
+							break
+						}
+					}
+				}
+				e.res.Fail(hx.Violation{Kind: "oracle", What: how + " differ in: " + what,
 					Case: c13Replay{Case: *c, Order: p}, Expected: hx.Q(va), Observed: hx.Q(vb)}, "")
-				return first, reg, true
+				return first, reg, byOrder, true
 			}
 		}
 		byOrder[c13PermKey(p)] = o0
 	}
 	if first == nil {
-		first, reg = c13Observe(c, id)
+		first, reg = c13Observe(c, id, false)
 		byOrder[c13PermKey(id)] = first
 	}
 	// file orders.  The independent errors of a rejected bundle: an error
@@ -637,7 +810,7 @@ func c13CheckCase(e *env, c *c13Case, reps int, orders [][]int) (first *c13Obs, 
 				}
 				o := byOrder[c13PermKey(p)]
 				if o == nil {
-					o, _ = c13Observe(c, p)
+					o, _ = c13Observe(c, p, true)
 					byOrder[c13PermKey(p)] = o
 				}
 				errSet[o.Err] = true
@@ -649,14 +822,24 @@ func c13CheckCase(e *env, c *c13Case, reps int, orders [][]int) (first *c13Obs, 
 		if (o.Err == "") != (first.Err == "") {
 			e.res.Fail(hx.Violation{Kind: "oracle", What: "adding the same files in a different order changes accept/reject",
 				Case: c13Replay{Case: *c, Order: id, Other: p}, Expected: hx.Q(first.Err), Observed: hx.Q(o.Err)}, "")
-			return first, reg, true
+			return first, reg, byOrder, true
 		}
 		if first.Err == "" {
-			if o.digest() != first.digest() {
-				what, va, vb := c13Diff(first, o)
+			if o.lite().digest() != first.lite().digest() {
+				what, va, vb := c13Diff(first.lite(), o.lite())
+				// an order is observed once in the quick tier: say whether the difference
+				// is one between file orders or between two compilations of this order
+				for i := 0; i < 6; i++ {
+					if o2, _ := c13Observe(c, p, o.Lite); o2.digest() != o.digest() {
+						w2, x2, y2 := c13Diff(o, o2)
+						e.res.Fail(hx.Violation{Kind: "oracle", What: "two compilations of the same sources (new bundle each, same file order, same process) differ in: " + w2,
+							Case: c13Replay{Case: *c, Order: p}, Expected: hx.Q(x2), Observed: hx.Q(y2)}, "")
+						return first, reg, byOrder, true
+					}
+				}
 				e.res.Fail(hx.Violation{Kind: "oracle", What: "adding the same files in a different order changes: " + what,
 					Case: c13Replay{Case: *c, Order: id, Other: p}, Expected: hx.Q(va), Observed: hx.Q(vb)}, "")
-				return first, reg, true
+				return first, reg, byOrder, true
 			}
 		} else if !errSet[o.Err] {
 			var set []string
@@ -666,37 +849,59 @@ func c13CheckCase(e *env, c *c13Case, reps int, orders [][]int) (first *c13Obs, 
 			sort.Strings(set)
 			e.res.Fail(hx.Violation{Kind: "oracle", What: "the error reported for a file order is not one of the bundle's independent errors (those reported with each ordered pair of files in front)",
 				Case: c13Replay{Case: *c, Order: p}, Expected: set, Observed: hx.Q(o.Err)}, "")
-			return first, reg, true
+			return first, reg, byOrder, true
 		}
 	}
-	return first, reg, false
+	return first, reg, byOrder, false
 }
 
 // ---------- driver ----------
 
 func runC13(e *env) {
-	e.res.Rule = fmt.Sprintf("bundles of the program generator (1-5 templates over 1-3 files, all commands, messages, directives) plus an extras file (2-4 cross-namespace calls + directives + functions for the ES6 import block, messages with colliding placeholder base names and equal map-literal placeholders, nested map literals, globals) and 0-2 globals maps; 45%% of the bundles get 1-3 independent injected errors (syntax, namespace, soydoc+header params, duplicate template, unknown data refs / globals inside one map literal, unused param/let, bad calls, globals redefined by a second map) spread over the files. Each bundle: %d in-process compile+emit repetitions of the identity order, 2 of every other permutation of the file order (<= 4 files: all permutations), 2 fresh processes; ES5 and ES6, with and without a message bundle; every template rendered with and without the bundle. Non-trivial = more than one file or an injected error or a message/map literal/import; distinct by sources + globals.", c13Reps)
+	e.res.Rule = fmt.Sprintf("bundles of the program generator (1-5 templates over 1-3 files, all commands, messages, directives) plus an extras file (2-4 cross-namespace calls + directives + functions for the ES6 import block, messages with colliding placeholder base names and equal map-literal placeholders, nested map literals, globals incl. map- and list-valued ones, header-param templates with and without soydoc, data=all), 0-2 files of messages (indexed data refs as placeholders and plural selectors) and 0-2 globals groups (AddGlobalsMap or globals file); 45%% of the bundles get 1-3 independent injected errors (syntax, namespace, soydoc+header params, duplicate template, unknown data refs / globals inside one map literal, unused param/let, bad calls, globals redefined by a second map) spread over the files. Each bundle: %d in-process compile+emit repetitions of the first file order (alternating a new bundle and Compile again on the same bundle object; once CompileToTofu first), every other permutation of the file order once (<= 4 files: all permutations), 2 worker processes per batch (second in reverse) and single-compilation processes for bundles with messages in several files; ES5 and ES6, with and without a message bundle; every template rendered with and without the bundle. Non-trivial = more than one file or an injected error or a message/map literal/import; distinct by sources + globals.", c13Reps)
 	if e.replay != "" {
 		c13ReplayRun(e)
 		return
 	}
-	n := 500 * e.scale
+	// every compilation allocates a few hundred kB that die at once: collect less often
+	defer debug.SetGCPercent(debug.SetGCPercent(800))
+	n := c13Bundles * e.scale
+	shuffles := 12 // random file orders of a bundle of more than four files (besides identity, reverse, every file in front)
+	if e.scale == 1 {
+		shuffles = 5
+	}
 	var batch []c13Job
 	var batchFirst []*c13Obs
+	var singles []c13Job
+	var singlesWant []*c13Obs
 	flush := func() {
 		if len(batch) == 0 {
 			return
 		}
+		// two fresh processes per batch; the second one runs the jobs in the reverse
+		// order, so that state that survives from one compilation to the next inside a
+		// process (a process-wide cache) meets a different history
 		for w := 0; w < 2; w++ {
-			res, err := c13RunWorker(e, batch, fmt.Sprint(w))
+			jobs := batch
+			if w == 1 {
+				jobs = make([]c13Job, len(batch))
+				for i := range batch {
+					jobs[len(batch)-1-i] = batch[i]
+				}
+			}
+			res, err := c13RunWorker(e, jobs, fmt.Sprint(w))
 			if err != nil {
 				e.res.Fail(hx.Violation{Kind: "obligation", What: "fresh-process run failed: " + err.Error(), Case: "batch"}, "")
 				break
 			}
-			for i := range res {
+			for j := range res {
+				i := j
+				if w == 1 {
+					i = len(batch) - 1 - j
+				}
 				e.res.Histogram["fresh-process-runs"]++
-				if res[i].Digest != batchFirst[i].digest() {
-					ob := res[i].Obs
+				if res[j].Digest != batchFirst[i].digest() {
+					ob := res[j].Obs
 					what, va, vb := c13Diff(batchFirst[i], &ob)
 					e.res.Fail(hx.Violation{Kind: "oracle", What: "a fresh process compiles the same bundle (same file order) differently: " + what,
 						Case: c13Replay{Case: batch[i].Case, Order: batch[i].Perm}, Expected: hx.Q(va), Observed: hx.Q(vb)}, "")
@@ -704,14 +909,16 @@ func runC13(e *env) {
 			}
 		}
 		batch, batchFirst = nil, nil
+		c13RunSingles(e, singles, singlesWant)
+		singles, singlesWant = nil, nil
 	}
 	for i := 0; i < n; i++ {
 		c := c13Gen(e.rng, e.res.Histogram)
 		if os.Getenv("VERIF_TRACE") != "" {
 			fmt.Fprintf(os.Stderr, "CASE %d files=%d errors=%v\n", i, len(c.Files), c.Errors)
 		}
-		orders := c13Orders(e.rng, len(c.Files))
-		first, reg, failed := c13CheckCase(e, &c, c13Reps, orders)
+		orders := c13Orders(e.rng, len(c.Files), shuffles)
+		first, reg, byOrder, failed := c13CheckCase(e, &c, c13Reps, orders)
 		key, _ := json.Marshal(c)
 		e.res.Count(string(key), len(c.Files) > 1 || len(c.Errors) > 0 || len(first.Msgs) > 0, "bundle")
 		e.res.Histogram[fmt.Sprintf("files:%d", len(c.Files))]++
@@ -726,7 +933,7 @@ func runC13(e *env) {
 			e.res.Histogram["rejected:"+c13ErrClass(first.Err)]++
 		}
 		if i%197 == 0 {
-			e.res.Sample(map[string]interface{}{"files": c.Files, "globals": c.Globals, "injected": c.Errors, "error": first.Err, "digest": first.digest()})
+			e.res.Sample(map[string]interface{}{"files": c.Files, "globals": c.Globals, "globals_file": c.GlobalsFile, "injected": c.Errors, "error": first.Err, "digest": first.digest()})
 		}
 		if failed {
 			continue
@@ -736,15 +943,89 @@ func runC13(e *env) {
 		batchFirst = append(batchFirst, first)
 		if len(orders) > 1 {
 			p := orders[1+e.rng.Intn(len(orders)-1)]
-			o, _ := c13Observe(&c, p)
-			batch = append(batch, c13Job{Case: c, Perm: p})
+			o := byOrder[c13PermKey(p)]
+			if o == nil {
+				o, _ = c13Observe(&c, p, true)
+			}
+			batch = append(batch, c13Job{Case: c, Perm: p, Lite: o.Lite})
 			batchFirst = append(batchFirst, o)
+		}
+		for _, p := range c13SingleOrders(e.rng, &c, first, orders) {
+			o := byOrder[c13PermKey(p)]
+			if o == nil {
+				o, _ = c13Observe(&c, p, true)
+			}
+			singles = append(singles, c13Job{Case: c, Perm: p, Lite: o.Lite})
+			singlesWant = append(singlesWant, o)
 		}
 		if len(batch) >= 24 {
 			flush()
 		}
 	}
 	flush()
+}
+
+// c13SingleOrders chooses the file orders of a case that are compiled in a
+// process of their own (one compilation per process: nothing any earlier
+// compilation left behind in the process can be seen).  A bundle with messages
+// in several files: every file with messages comes first once (at most four
+// orders); any other bundle: one order with probability 1/8.
+func c13SingleOrders(r *hx.Rand, c *c13Case, first *c13Obs, orders [][]int) [][]int {
+	n := len(c.Files)
+	withMsgs := map[string]bool{}
+	for k := range first.Msgs {
+		withMsgs[k[:strings.LastIndex(k, "#")]] = true
+	}
+	var res [][]int
+	if len(withMsgs) >= 2 {
+		for f := 0; f < n && len(res) < 4; f++ {
+			if withMsgs[c.Files[f].Name] {
+				res = append(res, c13Front(n, f))
+			}
+		}
+		return res
+	}
+	if r.Chance(12) {
+		res = append(res, orders[r.Intn(len(orders))])
+	}
+	return res
+}
+
+// c13RunSingles runs every job in a fresh process of its own (four at a time)
+// and compares with what this process observed for the same file order.
+func c13RunSingles(e *env, jobs []c13Job, want []*c13Obs) {
+	type out struct {
+		res []c13JobResult
+		err error
+	}
+	outs := make([]out, len(jobs))
+	sem := make(chan bool, 4)
+	done := make(chan bool)
+	for i := range jobs {
+		go func(i int) {
+			sem <- true
+			r, err := c13RunWorker(e, jobs[i:i+1], fmt.Sprintf("s%d", i))
+			outs[i] = out{r, err}
+			<-sem
+			done <- true
+		}(i)
+	}
+	for range jobs {
+		<-done
+	}
+	for i := range jobs {
+		if outs[i].err != nil {
+			e.res.Fail(hx.Violation{Kind: "obligation", What: "fresh-process run failed: " + outs[i].err.Error(), Case: c13Replay{Case: jobs[i].Case, Order: jobs[i].Perm}}, "")
+			continue
+		}
+		e.res.Histogram["fresh-process-single-compilation"]++
+		if outs[i].res[0].Digest != want[i].digest() {
+			ob := outs[i].res[0].Obs
+			what, va, vb := c13Diff(want[i], &ob)
+			e.res.Fail(hx.Violation{Kind: "oracle", What: "a fresh process that compiles only this bundle (same file order) differs from this process, which compiled other bundles and other file orders before, in: " + what,
+				Case: c13Replay{Case: jobs[i].Case, Order: jobs[i].Perm}, Expected: hx.Q(va), Observed: hx.Q(vb)}, "")
+		}
+	}
 }
 
 // c13ErrClass is used for the histogram only.
@@ -775,10 +1056,20 @@ func c13ReplayRun(e *env) {
 		return
 	}
 	c := rp.Case.Case
-	orders := c13Orders(e.rng, len(c.Files))
+	orders := c13Orders(e.rng, len(c.Files), 12)
 	e.res.Count("replay", true, "replay")
-	first, reg, failed := c13CheckCase(e, &c, 200, orders)
+	first, reg, byOrder, failed := c13CheckCase(e, &c, 200, orders)
 	if !failed {
 		c13Model(e, &c, orders, first, reg)
+		// every order (at most 24) in a process of its own
+		var jobs []c13Job
+		var want []*c13Obs
+		for i, p := range orders {
+			if o := byOrder[c13PermKey(p)]; o != nil && i < 24 {
+				jobs = append(jobs, c13Job{Case: c, Perm: p, Lite: o.Lite})
+				want = append(want, o)
+			}
+		}
+		c13RunSingles(e, jobs, want)
 	}
 }
